@@ -62,16 +62,14 @@ func (sc *scanner) resolve() {
 		var ns []*node
 		sc.nodesInto(c.slot, map[*types.Var]bool{}, &ns)
 		for _, n := range ns {
-			c.from.calls = append(c.from.calls, &callEdge{callee: n, held: c.held, pos: c.pos})
+			c.from.calls = append(c.from.calls, &callEdge{callee: n, held: c.held, pos: c.pos, from: c.from})
 		}
 	}
 	// construct-phase calls: the receiver is a fresh object that has not escaped yet
 	for _, n := range sc.nodes {
 		for _, e := range n.calls {
 			if e.freshRecv != nil && e.fd != nil {
-				if fi := e.fd.fresh[e.freshRecv]; fi != nil && !fi.bad && (fi.esc == token.NoPos || e.pos < fi.esc) {
-					e.construct = true
-				}
+				e.construct = sc.callConstruct(e)
 			}
 		}
 	}
@@ -297,48 +295,106 @@ func endsWithExit(list []ast.Stmt) bool {
 	return len(list) > 0 && terminates(list[len(list)-1])
 }
 
-// the access precedes every publishing call of the fresh object, and a publishing compare-and-swap that succeeds leaves
-// the enclosing loop (it is the condition of an if whose body ends in break / return), so that an access that comes
-// textually before it can only run again after a FAILED attempt, when the object is still private
-func (sc *scanner) beforePublication(a *access, fi *freshInfo) bool {
-	if len(fi.casUses) == 0 {
-		return false
+// shapeOf: the publish shape of an access; when the access is made through a parameter of a helper function, the shape
+// its callers establish for the object they pass (inherited)
+func (sc *scanner) shapeOf(a *access) shape {
+	if s := sc.shapeHere(a); s.kind != "" {
+		return s
 	}
-	for _, c := range fi.casUses {
-		if a.effPos >= c.Pos() {
-			return false
-		}
-		se, _ := c.Fun.(*ast.SelectorExpr)
-		inLoop := false
-		for p := a.fd.parents[ast.Node(c)]; p != nil; p = a.fd.parents[p] {
-			switch p.(type) {
-			case *ast.ForStmt, *ast.RangeStmt:
-				inLoop = true
-			}
-		}
-		if !inLoop {
-			continue
-		}
-		if se == nil || se.Sel.Name != "CompareAndSwap" {
-			return false
-		}
-		var par ast.Node = a.fd.parents[ast.Node(c)]
-		for {
-			if pe, ok := par.(*ast.ParenExpr); ok {
-				par = a.fd.parents[pe]
-				continue
-			}
-			break
-		}
-		is, ok := par.(*ast.IfStmt)
-		if !ok || ast.Unparen(is.Cond) != ast.Expr(c) || !endsWithExit(is.Body.List) {
-			return false
-		}
-	}
-	return true
+	return sc.shapeFromCallers(a, 0)
 }
 
-func (sc *scanner) shapeOf(a *access) shape {
+// shapeFromCallers: the access is made through the receiver / a parameter p of a function that is not a root (all its
+// callers are in the scanned files), and EVERY call of that function is a plain synchronous call (not go, not defer)
+// that passes a variable b for p at a point where an access through b would have the same shape S "after a receive on
+// b's channel c" / "in the first-Swap region before close(c)" / "b was loaded from the atomic cell s".  The helper runs
+// between that point and the caller's next statement, on the caller's goroutine, on the same object: its accesses
+// through p have shape S too.  (Not for SPreCAS: the state of a fresh object inside helpers is followed by objflow.go.)
+func (sc *scanner) shapeFromCallers(a *access, depth int) shape {
+	if depth > 3 || a.base == nil || a.fd == nil || a.n == nil || a.n != a.fd.node {
+		return shape{}
+	}
+	n := a.n
+	if n.root || n.assume != nil {
+		return shape{}
+	}
+	isRecv, idx, found := false, -1, false
+	info := a.fd.pkg.TypesInfo
+	if r := a.fd.decl.Recv; r != nil && len(r.List) > 0 && len(r.List[0].Names) > 0 {
+		if v, _ := info.Defs[r.List[0].Names[0]].(*types.Var); v != nil && v == a.base {
+			isRecv, found = true, true
+		}
+	}
+	if !found {
+		k := 0
+		for _, f := range a.fd.decl.Type.Params.List {
+			for _, nm := range f.Names {
+				if v, _ := info.Defs[nm].(*types.Var); v != nil && v == a.base {
+					idx, found = k, true
+				}
+				k++
+			}
+			if len(f.Names) == 0 {
+				k++
+			}
+		}
+	}
+	if !found {
+		return shape{}
+	}
+	if sig, ok := a.fd.obj.Type().(*types.Signature); ok && !isRecv && sig.Variadic() && idx == sig.Params().Len()-1 {
+		return shape{}
+	}
+	sc.helperEligible(nil) // builds the incoming-edge index
+	in := sc.incoming[n]
+	if len(in) == 0 {
+		return shape{}
+	}
+	var res shape
+	for i, e := range in {
+		if e.call == nil || e.fd == nil || e.from == nil {
+			return shape{}
+		}
+		switch e.fd.parents[ast.Node(e.call)].(type) {
+		case *ast.GoStmt, *ast.DeferStmt:
+			return shape{}
+		}
+		var arg ast.Expr
+		if isRecv {
+			se, ok := ast.Unparen(e.call.Fun).(*ast.SelectorExpr)
+			if !ok {
+				return shape{}
+			}
+			arg = se.X
+		} else if idx < len(e.call.Args) {
+			arg = e.call.Args[idx]
+		}
+		id, ok := ast.Unparen(arg).(*ast.Ident)
+		if !ok {
+			return shape{}
+		}
+		b, _ := e.fd.pkg.TypesInfo.Uses[id].(*types.Var)
+		if b == nil {
+			return shape{}
+		}
+		pa := &access{loc: a.loc, write: a.write, pos: e.call.Pos(), effPos: e.call.Pos(), n: e.from, base: b, expr: e.call, fd: e.fd}
+		s := sc.shapeHere(pa)
+		if s.kind == "" {
+			s = sc.shapeFromCallers(pa, depth+1)
+		}
+		if s.kind == "" || s.kind == "precas" {
+			return shape{}
+		}
+		if i == 0 {
+			res = s
+		} else if s != res {
+			return shape{}
+		}
+	}
+	return res
+}
+
+func (sc *scanner) shapeHere(a *access) shape {
 	if a.expr == nil || a.fd == nil {
 		return shape{}
 	}
@@ -347,8 +403,10 @@ func (sc *scanner) shapeOf(a *access) shape {
 
 	// --- published by an atomic operation on a pointer cell
 	if a.base != nil {
-		if fi := a.fd.fresh[a.base]; fi != nil && !fi.bad && fi.casOnly && fi.casLoc != "" && fi.esc != token.NoPos && sc.beforePublication(a, fi) {
-			return shape{kind: "precas", c: fi.casLoc}
+		// through a fresh object that is still private here and leaves its goroutine only as the new value of a
+		// CompareAndSwap / Store on one cell (objflow.go)
+		if _, cell := sc.objFacts(a); cell != "" {
+			return shape{kind: "precas", c: cell}
 		}
 		if s, ok := a.fd.loadDef[a.base]; ok && a.fd.assigned[a.base] == 0 {
 			return shape{kind: "postload", c: s}
@@ -514,7 +572,8 @@ func (sc *scanner) buildTable() *tTable {
 				phase = "Construct"
 				held = a.held
 			case n.entry == nil && n.hasConstr:
-				phase = "Construct"
+				// reached through construct-phase calls only: what it does to the object under construction is
+				// decided below (objFacts); anything else it touches gets no lock from its callers
 				held = a.held
 			case n.entry == nil:
 				unreachable++
@@ -527,7 +586,8 @@ func (sc *scanner) buildTable() *tTable {
 					phase = "Construct"
 				}
 				if a.base != nil {
-					if fi := a.fd.fresh[a.base]; fi != nil && !fi.bad && len(framesCross(a)) == 0 && (fi.esc == token.NoPos || a.effPos < fi.esc) {
+					// a field of an object that is certainly still private to its allocating goroutine here
+					if c, _ := sc.objFacts(a); c {
 						phase = "Construct"
 					}
 				}
@@ -580,27 +640,6 @@ func (sc *scanner) buildTable() *tTable {
 	t.Stats["accesses_in_unreachable_functions"] = unreachable
 	sc.check(t)
 	return t
-}
-
-// closures between the declaration of the base variable and the access (then the object has escaped already)
-func framesCross(a *access) []int {
-	if a.base == nil || a.fd == nil {
-		return nil
-	}
-	var r []int
-	cur := a.expr
-	for {
-		p := a.fd.parents[cur]
-		if p == nil {
-			return r
-		}
-		if fl, ok := p.(*ast.FuncLit); ok {
-			if a.base.Pos() < fl.Pos() || a.base.Pos() > fl.End() {
-				r = append(r, 1)
-			}
-		}
-		cur = p
-	}
 }
 
 // ------------------------------------------------------------------ mirror of Lockset/Check.v
